@@ -59,9 +59,6 @@ def apply(ctx, W):
     rules.slice1_all(fw, fn)
     ghost(ctx, fw, u, body_start(l2), 'proof { reveal_strlit("index"); }')
     # trusted callees
-    f = W.file("semantic/function.rs")
-    fn_into_verus(ctx, f, "build", mode="T", ret="res", tags=("C04", "C05", "C16", "C17", "C10"),
-                  ensures=["res is Ok ==> fn_built(type_registry, scope@, is_vfunc, *function, res->Ok_0)"])
     m = W.file("semantic/module.rs")
     fn_into_verus(ctx, m, "Module::scope", mode="T", ret="r", tags=("C11", "C04", "C05"),
                   ensures=["r@ == module_scope(self)"])
